@@ -544,6 +544,13 @@ def r16(db, ctx):
         (ctx.ok if not probs else ctx.fail)('R1.6', f, f'{owner}::score_position = Σ_j row_j[seq[pos + j].as_index()]', *([[red['how']]] if not probs else ['; '.join(probs)]))
 
 
+def r17(db, ctx):
+    ctx.rule('R1.7', 'Score::score_into (behind Pipeline::score, ScoringMatrix::score and the Python calculate) scores rows 0 .. rows - wrap of the scored sequence: '
+                     'position i is cell (i mod R, i div R) with R the number of sequence rows, so a range derived from anything else shifts every position past the first column (shared with R6.3)')
+    from . import C06
+    C06.score_into_range(db, ctx, 'R1.7')
+
+
 def run(db, ctx):
     ctx.rule('R1.1', 'lane semantics of each scoring kernel: stored cell (r, c) = Σ_{j < rows(pssm)} T_j[seq(rows.start + r + j, c)]; accumulators start at the additive identity; '
                      'table / sequence / result pointers advance in lock-step by their own strides; every column stored exactly once')
@@ -557,3 +564,4 @@ def run(db, ctx):
     r14(db, ctx)
     r15(db, ctx)
     r16(db, ctx)
+    r17(db, ctx)
